@@ -129,6 +129,12 @@ class _SimRawWriter(io.RawIOBase):
             raise SimCrash("process is dead: no write reaches the disk")
         w.seam("disk_write")
         d.write_calls += 1
+        if d.crash_at_write is not None and d.write_calls >= d.crash_at_write:
+            d.crash_at_write = None
+            d.dead = True
+            w.faults.hit("crash@inside_checkpoint_write")
+            w.log.add("crash", ["disk_write", d.write_calls])
+            raise SimCrash("killed inside a checkpoint write")
         mv = memoryview(b).cast("B")
         n = len(mv)
         fault = d.write_faults.get(d.write_calls)
@@ -176,6 +182,15 @@ class _SimWriteFile:
     def tell(self) -> int:
         return self._b.tell()
 
+    def seek(self, off: int, whence: int = 0) -> int:
+        return self._b.seek(off, whence)
+
+    def truncate(self, size: Optional[int] = None) -> int:
+        return self._b.truncate(size)
+
+    def __getattr__(self, name: str) -> Any:  # anything else a file object offers
+        return getattr(self._b, name)
+
     def writable(self) -> bool:
         return True
 
@@ -183,7 +198,7 @@ class _SimWriteFile:
         return False
 
     def seekable(self) -> bool:
-        return False
+        return True
 
     @property
     def closed(self) -> bool:
@@ -267,6 +282,7 @@ class SimDisk:
         self.buffer_size = io.DEFAULT_BUFFER_SIZE
         self.dead = False  # set while a crash unwinds: buffered data is never flushed
         self.fds: dict[int, _Inode] = {}
+        self.crash_at_write: Optional[int] = None  # die when the raw write with this ordinal is attempted
         self.writes_completed: dict[str, int] = {}  # path -> number of successful closes
 
     # ---- the part of `os` a checkpoint routine may use (installed only if the module under test imports os)
